@@ -363,6 +363,21 @@ Ref(L) == CASE L.fmt = "qcow2" -> QcowRef(L) [] L.fmt = "qed" -> QedRef(L)
             [] L.fmt = "raw" -> RawRef(L) [] L.fmt = "gpt" -> GptRef(L)
             [] L.fmt = "vhdx" -> VhdxRef(L) [] L.fmt = "vmdk" -> VmdkRef(L)
 
+(* FileInspector.from_file(path): reads 512-byte chunks and stops as soon as the inspector is   *)
+(* complete; it returns the inspector iff the stream (as far as read) is complete and matches,  *)
+(* else ImageFormatError.  ReadUpTo(L) is the stream position from which a clean image is       *)
+(* complete (the end of its last structure; the whole stream when an end region is involved);   *)
+(* actual_size of the returned inspector is that position rounded up to the read size, capped   *)
+(* by the stream length.                                                                        *)
+FromFile(L) == IF Ref(L).match /\ Ref(L).complete THEN "inspector" ELSE "ImageFormatError"
+ReadUpTo(L) ==
+  CASE L.fmt \in {"qcow2", "qed", "vhd", "vdi", "gpt"} -> 512
+    [] L.fmt = "luks" -> 592
+    [] L.fmt = "iso" -> 34816
+    [] L.fmt = "raw" -> 1
+    [] L.fmt = "vhdx" -> L.meta_off + L.item_off + 8
+    [] L.fmt = "vmdk" -> IF L.footer.present THEN -1 ELSE 512 + DescNumBytes(L.desc_num)     \* -1: whole stream
+
 Unsafe(L) == CASE L.fmt = "qcow2" -> QcowUnsafe(L) [] L.fmt = "qed" -> TRUE
                [] L.fmt = "luks" -> L.version # 1 [] L.fmt = "gpt" -> GptUnsafe(L)
                [] L.fmt = "vmdk" -> VmdkUnsafe(L) [] OTHER -> FALSE
